@@ -198,9 +198,10 @@ def getattr_(interp, o: ExtObj, name: str) -> Any:
         if name == "value":
             return o.attrs["lex"]
     if k in TERM_KINDS:
-        if name in ("n3", "toPython", "__str__", "lower", "upper", "startswith", "endswith", "rpartition", "partition", "removeprefix"):
-            if name in ("n3", "toPython", "__str__"):
-                return ExtMethod(o, k, name)
+        if name in ("n3", "toPython", "__str__"):
+            return ExtMethod(o, k, name)
+        # rdflib terms are str subclasses: every str method that rdflib does not override works on the text
+        if hasattr(str, name) and not name.startswith("__") and name not in ("format", "format_map"):
             return ExtMethod(str_of(interp, o), "str", name)
         raise interp.exc("AttributeError", f"'{k}' object has no attribute '{name}'")
     if k in GRAPH_KINDS:
